@@ -1117,6 +1117,9 @@ func leadingZeroCondOK(p *GoProg, m *numModel, cond ast.Expr, E int64, fam strin
 			if min > E+2 {
 				return false, fmt.Sprintf("length guard %s excludes the shortest offending literal (%d chars)", nc.src, E+2)
 			}
+			if min < E+2 {
+				return false, fmt.Sprintf("length guard %s lets the rejection fire on the %d-character literal that is just a zero (`0` / `-0` are valid numbers)", nc.src, E+1)
+			}
 		case nc.kind == "flagclear" && nc.flag == "isFloatOnlyFlag" && nc.holds && fam == "float":
 			// subject must be isNumberRune[buf[E+1]]
 			okSub := false
